@@ -248,9 +248,9 @@ def mesher_frames(ctx):
             return fr(e.value, loc_env)
         if isinstance(e, (ast.List, ast.Tuple)):
             fs = {fr(x, loc_env) for x in e.elts} - {None}
-            if len(fs) > 1:
+            if len(fs) > 1 and isinstance(e, ast.List) and getattr(e, "_concatenated", False):
                 problems.append((e, f"`{norm(e)[:60]}` mixes the two frames"))
-            return next(iter(fs)) if fs else None
+            return next(iter(fs)) if len(fs) == 1 else None
         if isinstance(e, (ast.ListComp, ast.GeneratorExp)):
             le = dict(loc_env)
             for g in e.generators:
@@ -258,6 +258,8 @@ def mesher_frames(ctx):
                     le[g.target.id] = fr(g.iter, le)
             return fr(e.elt, le)
         if isinstance(e, ast.Call):
+            if norm(e.func).split(".")[-1] in ("concatenate", "vstack", "hstack", "stack") and e.args and isinstance(e.args[0], ast.List):
+                e.args[0]._concatenated = True
             fs = [fr(a, loc_env) for a in e.args] + [fr(k.value, loc_env) for k in e.keywords]
             if isinstance(e.func, ast.Attribute):
                 fs.append(fr(e.func.value, loc_env))
@@ -284,9 +286,18 @@ def mesher_frames(ctx):
                         elif not (isinstance(st.value, (ast.List, ast.Tuple)) and not st.value.elts):   # `x = []` default keeps the frame
                             env.pop(t.id, None)
                     elif isinstance(t, ast.Tuple):
-                        for x in t.elts:
-                            if isinstance(x, ast.Name):
-                                env.pop(x.id, None)
+                        if isinstance(st.value, ast.Tuple) and len(st.value.elts) == len(t.elts):
+                            for x, vx in zip(t.elts, st.value.elts):          # a, b = (A, B)
+                                if isinstance(x, ast.Name):
+                                    fx = fr(vx, env)
+                                    if fx:
+                                        env[x.id] = fx
+                                    else:
+                                        env.pop(x.id, None)
+                        else:
+                            for x in t.elts:
+                                if isinstance(x, ast.Name):
+                                    env.pop(x.id, None)
             for c in ast.walk(st) if not isinstance(st, (ast.For, ast.While, ast.If)) else ast.walk(getattr(st, "test", None) or getattr(st, "iter", st)):
                 if isinstance(c, ast.Call) and isinstance(c.func, ast.Attribute) and c.func.attr in ("set_points", "set_holes"):
                     sinks += 1
@@ -345,7 +356,7 @@ def holes_passed(ctx):
         and norm(hc.generators[0].iter) == "self.holes" and isinstance(hc.elt, ast.Attribute) and hc.elt.attr == "points" \
         and norm(hc.elt.value) == norm(hc.generators[0].target)
     outline = calls[0].args[0] if calls[0].args else next((k.value for k in calls[0].keywords if k.arg == "poly_coords"), None)
-    ok = ok and outline is not None and norm(outline) == "self.film.points"
+    ok = ok and outline is not None and norm(expand(f.node, outline)) == "self.film.points"
     ctx.ob("R07.7", "generate_mesh(self.film.points, hole_coords=[h.points for h in self.holes]) - all holes, unfiltered", bool(ok),
            detail={"hole_coords": norm(hc) if hc is not None else None, "outline": norm(outline) if outline is not None else None},
            where=f.fq, construct="holes handed to the mesher", loc=loc(f, calls[0]),
